@@ -11,6 +11,7 @@ import (
 	"github.com/olive-io/bpmn/schema"
 	bpmn "github.com/olive-io/bpmn/v2"
 	"github.com/olive-io/bpmn/v2/pkg/clock"
+	"github.com/olive-io/bpmn/v2/pkg/errors"
 	"github.com/olive-io/bpmn/v2/pkg/event"
 	"github.com/olive-io/bpmn/v2/pkg/id"
 	"github.com/olive-io/bpmn/v2/pkg/timer"
@@ -366,6 +367,8 @@ func (r *Run) ErrorKinds() []string {
 		case bpmn.InclusiveNoEffectiveSequenceFlows:
 			p, _ := x.InclusiveGateway.Id()
 			out = append(out, "or:"+*p)
+		case errors.TaskExecError:
+			out = append(out, "task:"+x.Id)
 		default:
 			out = append(out, fmt.Sprintf("%T:%v", e, e))
 		}
